@@ -846,6 +846,18 @@ func init() {
 						}
 					}()
 				}
+				// a listener that stops accepting (go-away) keeps its established
+				// tunnels, whoever dials the endpoint afterwards
+				for entry := 0; entry < 2; entry++ {
+					extraN++
+					ewg.Add(1)
+					go func(entry int) {
+						defer ewg.Done()
+						if msg := drainingListenerKeepsTunnels(lw, entry, fmt.Sprintf("t5-%d", entry)); msg != "" {
+							addExtra([2]string{"established-tunnel-broken-by-drain", fmt.Sprintf("%s world, dialer enters at node %d: %s", world, entry, msg)})
+						}
+					}(entry)
+				}
 				n, fails := lw.longLived(world, 6500*time.Millisecond)
 				ewg.Wait()
 				llCh <- llRes{n + extraN, append(fails, extra...)}
